@@ -395,12 +395,32 @@ def truncation(block):
     raise NotFound("clipping block: " + " ".join(st)[:80])
 
 
+HELPERS = {}   # name -> Lean term over `result`, for one-argument helper functions of util.rs with a known body
+
+
+def scan_helpers(src):
+    """`fn f(s: &str) -> Cow<'_, str> { if s.chars().any(char::is_uppercase) { Cow::Owned(s.to_lowercase()) } else
+    { Cow::Borrowed(s) } }`: lower-casing only when some character is `is_uppercase` - NOT the same function"""
+    HELPERS.clear()
+    for m in re.finditer(r"\bfn\s+(\w+)\s*\(\s*(\w+)\s*:\s*&str\s*\)\s*->\s*Cow<'_,\s*str>", src):
+        try:
+            body = norm(fn_body(src, m.group(1)))
+        except NotFound:
+            continue
+        v = m.group(2)
+        if body == "{ if %s.chars().any(char::is_uppercase) { Cow::Owned(%s.to_lowercase()) } else { Cow::Borrowed(%s) } }" % (v, v, v):
+            HELPERS[m.group(1)] = "(if result.any U = true then lower result else result)"
+
+
 def accept_arg(t):
     t = t.strip()
     if t == "&result.to_lowercase()":
         return "(lower result)"
     if t == "&result":
         return "result"
+    m = re.fullmatch(r"&(\w+)\(&result\)", t)
+    if m and m.group(1) in HELPERS:
+        return HELPERS[m.group(1)]
     raise NotFound("argument of accept_path: " + t)
 
 
@@ -454,7 +474,8 @@ def t_escape(stmt):
             conds.append("c = " + lean_char(unescape(pat[1:-1])))
         if guard is not None:
             g = {"result.is_empty()": "atStart = true", "SPECIAL_ILLEGAL.contains(&c)": "c ∈ " + C + "illegal",
-                 "c.is_uppercase()": "U c = true"}.get(guard.strip())
+                 "c.is_uppercase()": "U c = true",
+                 "c.is_ascii_uppercase()": "(65 ≤ c.toNat ∧ c.toNat ≤ 90)"}.get(guard.strip())
             if g is None:
                 raise NotFound("arm guard: " + guard)
             conds.append(g)
@@ -564,7 +585,8 @@ def t_counter(stmts):
         raise NotFound("counter loop body")
     digits = "twoDigits counter" if f.group(1) == "2" else "padDigits %s counter" % f.group(1)
     return ("/-- `for counter in LO..HI { .. }` with `fuel` = remaining iterations; `none` = the `panic!` after the last try -/\n"
-            "def tryCounters (lower : Str → Str) (accept : Nat → Str → Bool) (pre suf : Str) : Nat → Nat → Str → Option Str\n"
+            "def tryCounters (U : Char → Bool) (lower : Str → Str) (accept : Nat → Str → Bool) (pre suf : Str) :\n"
+            "    Nat → Nat → Str → Option Str\n"
             "  | 0, _, _ => none\n"
             "  | fuel + 1, counter, result =>\n"
             "    let result := result ++ %s\n"
@@ -573,7 +595,7 @@ def t_counter(stmts):
             "    else\n"
             "      match truncateAt result %s with\n"
             "      | none => none\n"
-            "      | some result => tryCounters lower accept pre suf fuel (counter + 1) result\n"
+            "      | some result => tryCounters U lower accept pre suf fuel (counter + 1) result\n"
             % (digits, accept_arg(a.group(1)), parse_expr(tr.group(1)).arg()))
 
 
@@ -646,6 +668,7 @@ def translate_fn(src):
             failed[name] = str(ex)
 
     src = strip_comments(src)   # first: a commented-out line of the body contains a brace
+    scan_helpers(src)
     body = fn_body(src, "user_name_to_file_name").strip()[1:-1]
     top = split_statements(body)
     kinds = [classify(s) for s in top]
@@ -712,7 +735,7 @@ def translate_fn(src):
                 ind += "  "
         L += [ind + "if accept 0 %s = true then some result" % first_arg, ind + "else",
               ind + "  match cutForCounter pre suf result with", ind + "  | none => none", ind + "  | some result =>",
-              ind + "    tryCounters lower accept pre suf", ind + "      (%scounterHi - %scounterLo)" % (C, C),
+              ind + "    tryCounters U lower accept pre suf", ind + "      (%scounterHi - %scounterLo)" % (C, C),
               ind + "      %scounterLo result" % C]
         done["main"] = "\n".join(L) + "\n"
     return done, failed
